@@ -1,7 +1,10 @@
 /-
-  Ops/ReplaceOps.lean — `query.replace <17 recorded-argument tokens> <17 keyword tokens>` (C12): the
-  normalised rule that `r.replace(**kw)` builds for a rule `r` whose recorded arguments
-  (`_original_rule` + scalar attributes) are given; a keyword token `_` means "not passed".
+  Ops/ReplaceOps.lean — C12, `replace()`; a keyword token `_` means "not passed".
+    query.replace <17 constructor-argument tokens> <17 keyword tokens>
+        the normalised rule `rrule(<args>).replace(**kw)` builds: `construct (merge (origArgs a r) kw)`
+        for `r = construct a` (`skip <Kind>` when the constructor itself raises)
+    query.replace_rec <17 recorded-argument tokens> <17 keyword tokens>
+        the same from recorded arguments read off a real object (`_original_rule` + scalar attributes)
 -/
 import DateutilVerif.Model.RRuleReplace
 import DateutilVerif.Ops.RRule
@@ -33,11 +36,14 @@ def parseKw? (orig kwt : List String) : Option Kw := do
          bysecond := if p 16 then some v.bysecond else none }
 
 def handle (op : String) (args : List String) : Option String :=
-  if op != "query.replace" then none else
+  if op != "query.replace" && op != "query.replace_rec" then none else
   if args.length != 34 then some "bad-args" else
   match parseArgs? (args.take 17), parseKw? (args.take 17) (args.drop 17) with
   | some a, some kw =>
-    some (Py.showR showRule (replaceFrom a kw))
+    if op == "query.replace_rec" then some (Py.showR showRule (replaceFrom a kw))
+    else match construct a with
+      | .error e => some ("skip " ++ e.name)
+      | .ok r => some (Py.showR showRule (replaceFrom (origArgs a r) kw))
   | _, _ => some "bad-args"
 
 end Ops.ReplaceOps
